@@ -42,7 +42,7 @@ def try_replay(pid, e):
             with open(fn, 'w') as f:
                 f.write(f'property: {pid}\nfailed obligation: {e["name"]}\nclause: {e.get("clause")}\n\n'
                         f'REPLAYED on the real code ({src}):\n  PYTHONPATH={src}:{VERIF} {" ".join(cmd)}\n\n'
-                        f'receiver {req["cls"]} fields: {json.dumps(req["fields"])}\ncall: {req["method"]}({json.dumps(req["args"])})\n'
+                        f'receiver {req["cls"]} {out.get("receiver", "(state of the counter-model)")}\n  fields before the call: {json.dumps(out.get("pre_fields"))}\ncall: {req["method"]}({json.dumps(req["args"])})\n'
                         f'observed: {out["outcome"]}, result {json.dumps(out.get("result"))}\n'
                         f'state after: {json.dumps(out.get("post_fields"))}\n\ncontract clauses that FAIL on this run:\n  '
                         + '\n  '.join(out['failed']) + '\n')
